@@ -45,6 +45,10 @@ ClientSaw(r) ==
   /\ (r.reader => o = CompleteIds(c))                         \* a reading client got every byte that was written
   /\ (r.reader => drp[c] = {})                                \* and, the emission being paced within the buffer, nothing was discarded for it
   /\ (\A i \in DOMAIN r.frames : r.frames[i][2] = 0 => i = Len(r.frames))
+  \* a client that was connected and reading when everything had come to rest (released stallers included): the transport
+  \* holds nothing back for it - no queued frame, no rest of a partially written frame - and its stream ends on a whole frame
+  /\ (("drained" \in DOMAIN r /\ r.drained /\ c \in registered) =>
+        (wbuf[c] = None /\ q[c] = <<>> /\ \A i \in DOMAIN r.frames : r.frames[i][2] = 1))
 
 TraceNext ==
   /\ l <= Len(Rec)
